@@ -56,6 +56,25 @@ def _printer(network, kt, modname):
             raise G.GenError("%s: bip%d_as_string does not look up bip%d_%%s_prefix" % (modname, kt, kt))
         ui = cl["ui_kwargs"]
         return ui.get("bip%d_prv_prefix" % kt), ui.get("bip%d_pub_prefix" % kt), 0
+    if f.__module__ == "pycoin.symbols." + modname and f.__code__.co_freevars:
+        # the closure made by _hd_as_string(prv_prefix, pub_prefix) in grs.py / grsrt.py / tgrs.py
+        cl = _closure(f)
+        if sorted(cl) != ["prv_prefix", "pub_prefix"] or "b2a_hashed_base58_grs" not in f.__code__.co_names:
+            raise G.GenError("%s: unexpected closure shape of bip%d_as_string" % (modname, kt))
+        h = f.__globals__["b2a_hashed_base58_grs"]
+        if "groestlHash" not in h.__code__.co_names or "b2a_base58" not in h.__code__.co_names:
+            raise G.GenError("%s: b2a_hashed_base58_grs has an unexpected shape" % modname)
+        # as_private must select prv_prefix: run the closure's own selection on a probe through a stub encoder
+        probe = {}
+        g = dict(f.__globals__)
+        g["b2a_hashed_base58_grs"] = lambda data: probe.setdefault("d", data)
+        import types as _t
+        f2 = _t.FunctionType(f.__code__, g, f.__name__, f.__defaults__, f.__closure__)
+        probe.clear(); f2(b"", True); a = probe["d"]
+        probe.clear(); f2(b"", False); b = probe["d"]
+        if (a, b) != (cl["prv_prefix"], cl["pub_prefix"]):
+            raise G.GenError("%s: bip%d_as_string does not select prv/pub prefix by as_private" % (modname, kt))
+        return cl["prv_prefix"], cl["pub_prefix"], 1
     if f.__module__ == "pycoin.symbols." + modname:
         names = f.__code__.co_names
         if "b2a_hashed_base58_grs" not in names or "_bip%d_prv_prefix" % kt not in names or "_bip%d_pub_prefix" % kt not in names:
